@@ -52,8 +52,8 @@ def NOT(x):
 # ----------------------------------------------------------------------------------------------------------------
 # sorts of state variables (by name prefix)
 # ----------------------------------------------------------------------------------------------------------------
-BOOL_PREFIX = ("flag", "swept", "sdret", "pf", "done", "started", "tf", "acc", "rej", "late", "missed", "early",
-               "crash", "igterm", "hasto", "pfail", "sdreq", "uf")
+BOOL_PREFIX = ("flag", "swept", "sdret", "sdretw", "pf", "done", "started", "tf", "acc", "rej", "late", "missed", "early",
+               "crash", "igterm", "hasto", "pfail", "sdreq", "uf", "kp")
 BV_PREFIX = {"lock": 6, "nreg": 3, "regpos": 3, "proc": 2, "exc": 2, "nset": 2, "res": 2, "pc": 8, "snap": 3, "it": 3}
 CONST_PREFIX = ("igterm", "hasto", "pfail")
 
@@ -283,7 +283,7 @@ class Model:
             for v in ("proc", "pf", "exc", "done", "nset", "started", "tf", "regpos", "acc", "rej", "res", "late",
                       "missed", "early"):
                 self.var(f"{v}{j}")
-        for v in ("flag", "lock", "nreg", "swept", "sdret"):
+        for v in ("flag", "lock", "nreg", "swept", "sdret", "sdretw"):
             self.var(v)
         for name, ops in sc.clients:
             th = self.thread(f"client:{name}", "client")
@@ -352,7 +352,7 @@ class Model:
             wait = bool(op[1])
             fn = self.src.method("PopenExecutor", "shutdown")
             env = self.bind(fn, exe, [], {"wait": ("static", wait)})
-            ok = lambda: plus(nxt(), [] if wait else [("sdret", ("const", True))])  # noqa: E731
+            ok = lambda: plus(nxt(), [("sdretw" if wait else "sdret", ("const", True))])  # noqa: E731
             k = K(ok, die if not swallow else (lambda kind: nxt()), ok)
             self.functions.add("PopenExecutor.shutdown")
             return self.build(body_of(fn), 0, env, k, th)
@@ -598,6 +598,9 @@ class Model:
 
         def exit_to(edge_thunk):
             def mk():
+                for k2, v2 in env2.items():  # locals bound in the body outlive the with statement
+                    if isinstance(v2, tuple) and v2 and v2[0] == "snapshot":
+                        env[k2] = v2
                 n = self.node(th, st.lineno, "with-exit")
                 cond = T
                 if tpe:
@@ -663,8 +666,9 @@ class Model:
                 e2[st.target.id] = o[1][idx]
                 return self.block(st.body, e2, K(lambda: it(idx + 1), k.exc, k.ret), th)
             return it(0)
-        if ast.unparse(st.iter) == "list(self._futures)" and env.get("self") == ("exec",):
-            itv, snap = self.var(f"it{th.idx}"), self.var(f"snap{th.idx}")
+        snap_obj = o if (o and o[0] == "snapshot") else None
+        if (ast.unparse(st.iter) == "list(self._futures)" or snap_obj) and env.get("self") == ("exec",):
+            itv, snap = self.var(f"it{th.idx}"), (snap_obj[1] if snap_obj else self.var(f"snap{th.idx}"))
             e2 = dict(env)
             e2[st.target.id] = ("jobdyn",)
             state = {}
@@ -679,11 +683,87 @@ class Model:
                 return Edge(state["n"].id)
             body = memo0(lambda: self.block(st.body, e2, K(nxt, k.exc, k.ret), th))
             n0 = self.node(th, st.lineno, "for-init")
-            eff = [(snap, ("var", "nreg")), (itv, ("const", 0))]
-            self.out(n0, ("ne", "nreg", 0), eff, body(), label="enter")
-            self.out(n0, ("eq", "nreg", 0), eff, rest(), label="empty")
+            if snap_obj:  # the list was copied earlier: iterate over that prefix
+                eff = [(itv, ("const", 0))]
+                self.out(n0, ("ne", snap, 0), eff, body(), label="enter")
+                self.out(n0, ("eq", snap, 0), eff, rest(), label="empty")
+            else:
+                eff = [(snap, ("var", "nreg")), (itv, ("const", 0))]
+                self.out(n0, ("ne", "nreg", 0), eff, body(), label="enter")
+                self.out(n0, ("eq", "nreg", 0), eff, rest(), label="empty")
             return Edge(n0.id)
         raise Unsupported(f"line {st.lineno}: for over {ast.unparse(st.iter)}")
+
+    # -- self._futures = [f for f in self._futures if P(f)]
+    def do_prune(self, st, gen, env, k, th, rest):
+        """the registry is pruned by a predicate on each registered future.  Jobs are visited in index order (= registry
+        order whenever they were submitted in index order; a schedule where that differs shows up as a replay divergence,
+        never as a violation).  One visible step per registered job (the predicate's own gate line); the assignment itself
+        happens with the last of them."""
+        J, fv = self.J, gen.target.id
+        if len(gen.ifs) != 1:
+            raise Unsupported(f"line {st.lineno}: several filters in one comprehension")
+        kp = [self.var(f"kp{th.idx}_{j}") for j in range(J)]
+        reg = [("ne", f"regpos{j}", NOREG) for j in range(J)]
+        tests = []
+        for j in range(J):
+            e = gen.ifs[0]
+            # P(f) with f bound to job j: rewrite `f.m()` / `not f.m()` to a test on self of that job
+            src = ast.unparse(e)
+            rewritten = re.sub(rf"\b{fv}\.", "self.", src)
+            node = ast.parse(rewritten, mode="eval").body
+            for x in ast.walk(node):
+                if not hasattr(x, "lineno"):
+                    x.lineno = st.lineno
+            r = self.test(node, {"self": ("job", j)}, th)
+            if r[0] == "static":
+                raise Unsupported(f"line {st.lineno}: static filter")
+            tests.append(r)
+
+        def final_effects(decided: dict):
+            """decided: j -> keep condition (over the pre-state) for every job"""
+            eff = []
+            for i in range(J):
+                pos = ("count", [AND(decided[m], ("ltv", f"regpos{m}", f"regpos{i}")) for m in range(J) if m != i])
+                eff.append((f"regpos{i}", ("ite", decided[i], pos, ("const", NOREG))))
+            eff.append(("nreg", ("count", [decided[i] for i in range(J)])))
+            return eff
+
+        FALSE = ("not", T)
+        nodes = {}
+
+        def succ_outs(n, j_from, base_cond, base_eff, decided_now):
+            """outs of node n (after deciding job j_from, or the init node when j_from = -1)"""
+            for j2 in range(j_from + 1, J + 1):
+                skipped = [NOT(reg[m]) for m in range(j_from + 1, min(j2, J))]
+                if j2 < J:
+                    cond = AND(base_cond, *skipped, reg[j2])
+                    self.out(n, cond, base_eff, Edge(nodes[j2].id), label=f"to{j2}")
+                else:
+                    cond = AND(base_cond, *skipped)
+                    decided = {}
+                    for m in range(J):
+                        if m in decided_now:
+                            decided[m] = decided_now[m]
+                        elif m < j_from:
+                            decided[m] = AND(reg[m], ("b", kp[m]))
+                        else:
+                            decided[m] = FALSE  # not registered (the condition above says so)
+                    e = rest()
+                    self.out(n, cond, list(base_eff) + final_effects(decided) + list(e.effects), Edge(e.target), label="assign")
+
+        init = self.node(th, st.lineno, "prune-init")
+        for j in range(J):
+            r = tests[j]
+            nd = self.node(th, r[2] or st.lineno, "prune-test")
+            nd.extra["entry"] = nd.extra["entry"] + r[3]
+            nodes[j] = nd
+        succ_outs(init, -1, T, [], {})
+        for j in range(J):
+            r = tests[j]
+            succ_outs(nodes[j], j, r[1], [(kp[j], ("const", True))], {j: T})
+            succ_outs(nodes[j], j, NOT(r[1]), [(kp[j], ("const", False))], {j: FALSE})
+        return Edge(init.id)
 
     # -- simple statements
     def do_simple(self, st, env, k, th, rest, krest):
@@ -731,11 +811,15 @@ class Model:
                     and ast.unparse(val) in ("list(self._futures)", "self._futures[:]", "self._futures.copy()"):
                 # a local snapshot of the registry (append-only: the snapshot is the prefix of length nreg)
                 sv = self.var(f"snap{th.idx}")
-                e2 = dict(env)
-                e2[targets[0]] = ("snapshot", sv)
+                env[targets[0]] = ("snapshot", sv)  # in place: a local assigned inside a `with` body is visible after it
                 n = self.node(th, ln, "snapshot")
-                self.out(n, T, [(sv, ("var", "nreg"))], krest(e2)())
+                self.out(n, T, [(sv, ("var", "nreg"))], krest(env)())
                 return Edge(n.id)
+            if isinstance(st, ast.Assign) and targets == ["self._futures"] and isinstance(val, ast.ListComp) \
+                    and len(val.generators) == 1 and val.generators[0].ifs and isinstance(val.generators[0].target, ast.Name) \
+                    and isinstance(val.elt, ast.Name) and val.elt.id == val.generators[0].target.id \
+                    and ast.unparse(val.generators[0].iter) in ("self._futures", "list(self._futures)"):
+                return self.do_prune(st, val.generators[0], env, k, th, rest)
             if isinstance(st, ast.Assign) and isinstance(val, ast.ListComp) and len(targets) == 1:
                 g = val.generators
                 it_src = ast.unparse(g[0].iter) if len(g) == 1 else ""
